@@ -399,6 +399,9 @@ func c12Make(r *prng.R) *c12In {
 				if r.Chance(1, 25) { // a coin whose script the size estimate does not support (pay-to-public-key, anything else)
 					u.Script = prng.Pick(r, [][]byte{append(append([]byte{33, 0x02}, r.Bytes(32)...), 0xac), {0x51}, append([]byte{0xa9, 0x14}, append(r.Bytes(20), 0x87)...)})
 				}
+				if r.Chance(1, 8) { // a coin locked by a P2PKH inscription: supported by the estimate, same 107-byte placeholder
+					u.Script = c11Inscription(r.Bytes(20), r)
+				}
 				if r.Chance(1, 2) {
 					u.Seq = gen.U32(r)
 				}
